@@ -9,7 +9,7 @@ ASSUMPTIONS = [
     'after an idle period the loops restart their pass at the first class (the classes behind the last served one were visited, empty, before the loop blocked)',
     'DRR theorems assume packets of at most Lmax bytes and a dict of positive weights; credits and quanta are exact rationals in the theorems, '
     'IEEE doubles compared bit for bit in the replay',
-    'the scheduler processes on the real kernel refine the MultiQueueServer LTS: checked by replay, not proved',
+    'the scheduler processes on the real kernel refine the MultiQueueServer LTS: checked by replay; proved for RR and WRR as processes on the kernel model (Props/C15K, C15KW), not for DRR',
 ]
 EXTRA_MODULES = ('OnlVerif.Props.C15K', 'OnlVerif.Props.C15KW')
 TRUSTED_EXTRA = ['the kernel guarantees (G1-G3) that make `tick` admissible only at quiescence are theorems of model K (C01), assumed for the device LTS',
